@@ -36,7 +36,8 @@ class ConvertState:
         return value
 
     def get_variable(self, name: str):
-        return self.variables.get(name) if self.variables else name
+        value = self.variables.get(name) if self.variables else None
+        return value if value is not None else name
 
 
 class Abbreviation:
